@@ -331,7 +331,7 @@ def replay(data):
 
 def jobs(tier, seed):
     J = []
-    nls = netlist.g2_shapes() + netlist.g3_random(seed, 20 if tier == 'quick' else 200)
+    nls = netlist.g2_shapes() + netlist.g3_random(seed, 20 if tier == 'quick' else 500)
     seqs = [s for n in (1, 2) for s in itertools.product(TRANSFORMS, repeat=n)]
     if tier == 'thorough': seqs += list(itertools.product(TRANSFORMS, repeat=3))
     for j, nl in enumerate(nls):
